@@ -155,6 +155,19 @@ func (c *Ctx) applyRuleEnsures(cc *ssa.CallCommon, res *Val, st *State, pre *Sta
 			}
 			if _, ok := c.heapSorts[name]; ok {
 				st.over[name] = c.fresh1(name+"@r", c.heapSorts[name])
+				continue
+			}
+			// a real location (T.field, []T, *T): the matched calls may change it even when
+			// they are otherwise treated as effect-free (e.g. waiting for worker goroutines)
+			var hit []string
+			for hn := range c.heapSorts {
+				if !c.isGhostMap(hn) && c.assignMatches(a, hn) {
+					hit = append(hit, hn)
+				}
+			}
+			sort.Strings(hit)
+			for _, hn := range hit {
+				c.havocMap(st, hn)
 			}
 		}
 		env := c.baseEnv(st, pre)
